@@ -3,11 +3,12 @@
    theorems.  Everything about run_cfg goes through its accessor functions and T06's lemmas. *)
 From Coq Require Import List ZArith NArith Bool Arith Lia Permutation Sorted.
 From TkModel Require Import Base Dec Acct Txn Accept Journal Balance Register Round Price Time Group.
-From TkModel Require Import ReportText T05_report PriceText Regex T06_run.
+From TkModel Require Import ReportText T05_report PriceText Regex T06_describe T06_run.
 From TkModel Require Filter Equity EquityText MetaText Audit Codec Tstamp Config Output.
-From TkSpec Require Import Balance_spec Register_spec Round_spec Price_spec ReportText_spec T05_spec T06_spec T08_spec.
+From TkSpec Require Import Balance_spec Register_spec Round_spec Price_spec ReportText_spec T05_spec T05_grp_spec T06_spec T08_spec.
 From TkSpec Require Accept_spec Filter_spec Audit_spec Equity_spec EquityText_spec Journal_spec Group_spec MetaText_spec.
-From TkProofs Require Import Base_proofs ReportText_proofs T05_proofs Journal_layout_proofs T06_proofs.
+From TkProofs Require Import Base_proofs ReportText_proofs T05_proofs T05_grp_proofs Journal_layout_proofs T06_proofs.
+From TkProofs Require T06_total_proofs.
 From TkProofs Require Accept_proofs Order_proofs Filter_proofs Audit_proofs MetaText_proofs Equity_proofs
                       EquityText_proofs Journal_image_proofs Group_proofs Output_proofs Config_proofs Load_proofs.
 Import ListNotations.
@@ -20,22 +21,22 @@ Section View.
   (* everything before the first write reads the configuration through same_inputs only *)
   Lemma prepare_same_inputs a b j p : same_inputs a b -> run_prepare H a j p = run_prepare H b j p.
   Proof.
-    intros (H1 & H2 & H3 & H4 & H5 & H6 & H7).
-    unfold run_prepare, price_setup, price_cfg, load, prepare_from, prepare_with, run_filter, filter_desc.
-    rewrite ?H1, ?H2, ?H3, ?H4, ?H5, ?H6, ?H7. reflexivity.
+    intros (H1 & H2 & H3 & H4 & H5 & H6 & H7 & H8).
+    unfold run_prepare, price_setup, price_cfg, load, prepare_from, prepare_with, run_filter.
+    rewrite ?H1, ?H2, ?H3, ?H4, ?H5, ?H6, ?H7, ?H8. reflexivity.
   Qed.
 
   Lemma report_text_same_view a b st k : same_run_view a b -> report_text H a st k = report_text H b st k.
   Proof.
-    intros ((I1 & I2 & I3 & I4 & I5 & I6 & I7) & (L1 & L2 & L3 & L4 & L5 & L6 & L7 & L8 & L9 & L10) & (Z1 & Z2) & S & Hs & He).
-    unfold report_text, report_head_text, report_body, report_prices, ts_text, rtz.
+    intros ((I1 & I2 & I3 & I4 & I5 & I6 & I7 & I8) & (L1 & L2 & L3 & L4 & L5 & L6 & L7 & L8 & L9 & L10) & (Z1 & Z2) & S & Hs & He).
+    unfold report_text, conv_overflow, report_head_text, report_body, report_prices, ts_text, rtz.
     rewrite ?(Hs k), ?I2, ?I3, ?I4, ?L3, ?L4, ?L5, ?L6, ?L7, ?Z1, ?Z2, ?S.
     destruct k; reflexivity.
   Qed.
 
   Lemma export_file_same_view a b st x : same_run_view a b -> export_file H a st x = export_file H b st x.
   Proof.
-    intros ((I1 & I2 & I3 & I4 & I5 & I6 & I7) & (L1 & L2 & L3 & L4 & L5 & L6 & L7 & L8 & L9 & L10) & (Z1 & Z2) & S & Hs & He).
+    intros ((I1 & I2 & I3 & I4 & I5 & I6 & I7 & I8) & (L1 & L2 & L3 & L4 & L5 & L6 & L7 & L8 & L9 & L10) & (Z1 & Z2) & S & Hs & He).
     unfold export_file, equity_file. rewrite ?He, ?I2, ?I3, ?L8. reflexivity.
   Qed.
 
@@ -271,7 +272,8 @@ Section Embedded.
       /\ framed (report_head_text H cfg st k ++ body) out.
   Proof.
     intros Hr Hin. destruct (console_embeds H _ _ _ _ _ Hr Hin) as (st & r & pre & post & Hp & Hk & ->).
-    unfold report_text in Hk. destruct (report_body cfg st k) as [b|] eqn:Eb; cbn [option_map] in Hk; [|discriminate].
+    unfold report_text in Hk. destruct (conv_overflow cfg st); [discriminate|].
+    destruct (report_body cfg st k) as [b|] eqn:Eb; cbn [option_map] in Hk; [|discriminate].
     inversion Hk; subst r. exists st, b. split; [exact Hp|]. split; [exact Eb|]. exists pre, post. reflexivity.
   Qed.
 
@@ -355,18 +357,20 @@ Section Display.
   Qed.
 
   Lemma console_reports cfg j p out st : run_console H cfg j p = Ok out -> run_prepare H cfg j p = Ok st ->
-    Forall (fun k => exists body, report_body cfg st k = Some body) (rc_targets cfg).
+    Forall (fun k => conv_overflow cfg st = false /\ exists body, report_body cfg st k = Some body) (rc_targets cfg).
   Proof.
     intros Hr Hp. apply Forall_forall. intros k Hin.
-    destruct (embedded_report H _ _ _ _ _ Hr Hin) as (st' & body & Hp' & Hb & _).
-    rewrite Hp in Hp'. inversion Hp'; subst st'. exists body. exact Hb.
+    destruct (console_embeds H _ _ _ _ _ Hr Hin) as (st' & r & pre & post & Hp' & Hk & _).
+    rewrite Hp in Hp'. inversion Hp'; subst st'. unfold report_text in Hk.
+    destruct (conv_overflow cfg st); [discriminate|]. split; [reflexivity|].
+    destruct (report_body cfg st k) as [b|]; [exists b; reflexivity|discriminate].
   Qed.
 
   (* ---------------------------------------------------------------- the report scale *)
   Lemma report_body_scale a b st k body : differ_only_in_scale a b -> report_body a st k = Some body ->
     exists body', report_body b st k = Some body'.
   Proof.
-    intros ((I1 & I2 & I3 & I4 & I5 & I6 & I7) & Hsel & (L1 & L2 & L3 & L4 & L5 & L6 & L7 & L8 & L9 & L10) & (Z1 & Z2)).
+    intros ((I1 & I2 & I3 & I4 & I5 & I6 & I7 & I8) & Hsel & (L1 & L2 & L3 & L4 & L5 & L6 & L7 & L8 & L9 & L10) & (Z1 & Z2)).
     destruct (sel_same _ _ Hsel) as [Hs _].
     unfold report_body, conv_balance_text, conv_balgrp_text, rtz. rewrite <- (Hs k), <- I4, <- L3, <- Z2. destruct k.
     - destruct (conv_balance (rs_lk st) (rc_commodity a) (rs_db st) (sel_of a MetaText.RBalance) (rs_txns st)); cbn [option_map]; [|discriminate].
@@ -399,7 +403,7 @@ Section Display.
                            (sel_of a MetaText.RBalGroup) (rs_txns st) = Some gs).
   Proof.
     intros Hd Hr. pose proof Hd as (Hi & Hsel & Hl & Hz).
-    pose proof Hi as (I1 & I2 & I3 & I4 & I5 & I6 & I7).
+    pose proof Hi as (I1 & I2 & I3 & I4 & I5 & I6 & I7 & I8).
     pose proof Hl as (L1 & L2 & L3 & L4 & L5 & L6 & L7 & L8 & L9 & L10).
     destruct (sel_same _ _ Hsel) as [Hs _].
     destruct (console_inv H _ _ _ _ Hr) as (st & Hp & _).
@@ -407,8 +411,9 @@ Section Display.
     assert (Hob : exists out', run_console H b j p = Ok out').
     { apply (console_total b j p st Hpb). rewrite <- L1.
       eapply Forall_impl; [|exact (console_reports _ _ _ _ _ Hr Hp)].
-      intros k (body & Hb). destruct (report_body_scale _ _ _ _ _ Hd Hb) as (body' & Hb').
-      unfold report_text. rewrite Hb'. eexists; reflexivity. }
+      intros k (Ho & body & Hb). destruct (report_body_scale _ _ _ _ _ Hd Hb) as (body' & Hb').
+      unfold report_text. replace (conv_overflow b st) with (conv_overflow a st) by (unfold conv_overflow; rewrite I4; reflexivity).
+      rewrite Ho, Hb'. eexists; reflexivity. }
     destruct Hob as (out' & Hrb). exists st, out'. split; [exact Hp|]. split; [exact Hpb|]. split; [exact Hrb|].
     assert (Hemb : forall k, In k (rc_targets a) ->
               exists body body', report_body a st k = Some body /\ report_body b st k = Some body'
@@ -452,10 +457,11 @@ Section Zone.
   Variable H : list N -> list N.
 
   (* T08_report_zone_display_only *)
-  Lemma report_zone_display_only a b j p out out' : differ_only_in_zone a b ->
-    run_console H a j p = Ok out -> run_console H b j p = Ok out' ->
-    exists st,
-      run_prepare H a j p = Ok st /\ run_prepare H b j p = Ok st
+  Lemma report_zone_display_only a b j p out : differ_only_in_zone a b ->
+    run_console H a j p = Ok out ->
+    exists out' st,
+      run_console H b j p = Ok out'
+      /\ run_prepare H a j p = Ok st /\ run_prepare H b j p = Ok st
       (* balance: the text from the title on is byte-identical *)
       /\ (In MetaText.RBalance (rc_targets a) ->
           exists body, report_body a st MetaText.RBalance = Some body /\ report_body b st MetaText.RBalance = Some body
@@ -488,13 +494,21 @@ Section Zone.
                  = zsum (map (fun c => spec_own (flat_map conv (snd c)) k)
                              (group_members (txn_key (rc_group_by a) (rtz b)) (sort_txns (rs_txns st))))).
   Proof.
-    intros Hd Hr Hrb. pose proof Hd as (Hi & Hsel & Hl & Hsc).
-    pose proof Hi as (I1 & I2 & I3 & I4 & I5 & I6 & I7).
+    intros Hd Hr. pose proof Hd as (Hi & Hsel & Hl & Hsc).
+    pose proof Hi as (I1 & I2 & I3 & I4 & I5 & I6 & I7 & I8).
     pose proof Hl as (L1 & L2 & L3 & L4 & L5 & L6 & L7 & L8 & L9 & L10).
     destruct (sel_same _ _ Hsel) as [Hs _].
     destruct (console_inv H _ _ _ _ Hr) as (st & Hp & _).
     assert (Hpb : run_prepare H b j p = Ok st) by (rewrite <- (prepare_same_inputs H a b j p Hi); exact Hp).
-    exists st. split; [exact Hp|]. split; [exact Hpb|].
+    (* the run under the other zone succeeds as well: the preparation does not read the zone, the reports are total *)
+    assert (Hob : exists out', run_console H b j p = Ok out').
+    { destruct (rc_targets a) as [|k0 ks] eqn:Et.
+      - exists []. unfold run_console, console_of, console_with. rewrite Hpb. cbn [res_bind]. rewrite <- L1. reflexivity.
+      - apply (T06_total_proofs.console_total_run H b j p st Hpb).
+        replace (conv_overflow b st) with (conv_overflow a st) by (unfold conv_overflow; rewrite I4; reflexivity).
+        apply (T06_total_proofs.console_ok_no_overflow H a j p out st Hr Hp). rewrite Et. discriminate. }
+    destruct Hob as [out' Hrb].
+    exists out', st. split; [exact Hrb|]. split; [exact Hp|]. split; [exact Hpb|].
     assert (Hemb : forall k, In k (rc_targets a) ->
               exists body body', report_body a st k = Some body /\ report_body b st k = Some body'
                 /\ framed (report_head_text H a st k ++ body) out /\ framed (report_head_text H b st k ++ body') out').
@@ -667,7 +681,7 @@ Section C05_C09.
       /\ rs_txns st = map txn_of (rs_sel st)
       /\ (Filter_spec.filter_wf f -> Forall Filter_spec.ftxn_wf (map ftxn_of js) ->
           Filter_spec.Selects (Filter_spec.sat (re_table pats) f) (map ftxn_of js) (map ftxn_of (rs_sel st)))
-      /\ exists items, rs_md st = Some (items ++ [MetaText.IFilter (MetaText.filter_lines (Codec.describe_def (to_cfilter pats f)))]).
+      /\ exists items, rs_md st = Some (items ++ [MetaText.IFilter (MetaText.filter_lines (describe_def_tz (rc_zone_off cfg) (to_cfilter pats f)))]).
   Proof.
     intros Hp Hf. destruct (prepare_inv H _ _ _ _ Hp) as (js & _ & Hl & Hs & _ & Hm).
     destruct (load_inv _ _ _ Hl) as [Hl' _].
@@ -687,7 +701,7 @@ Section C05_C09.
   Lemma filter_in_output cfg j p out f pats : run_console H cfg j p = Ok out -> rc_targets cfg <> [] ->
     rc_filter cfg = Some (f, pats) ->
     exists items rest,
-      out = MetaText.meta_text (items ++ [MetaText.IFilter (MetaText.filter_lines (Codec.describe_def (to_cfilter pats f)))])
+      out = MetaText.meta_text (items ++ [MetaText.IFilter (MetaText.filter_lines (describe_def_tz (rc_zone_off cfg) (to_cfilter pats f)))])
             ++ [10%N] ++ rest.
   Proof.
     intros Hr Ht Hf. destruct (console_structure H _ _ _ _ Hr Ht) as (st & rs & Hp & _ & _ & ->).
@@ -993,7 +1007,7 @@ Section C19.
     assert (Hx : rc_exports cfg = rc_exports cfg') by (apply (map_inj export_code export_code_inj); congruence).
     assert (Hl : rc_lookup cfg = rc_lookup cfg') by (apply lookup_code_inj; congruence).
     assert (Hg : rc_group_by cfg = rc_group_by cfg') by (apply group_code_inj; congruence).
-    unfold same_run_view. split; [unfold same_inputs; repeat split; congruence|].
+    unfold same_run_view. split; [unfold same_inputs; repeat split; try congruence; unfold filter_desc; rewrite (proj2 F5); congruence|].
     split; [unfold same_layout; repeat split; congruence|]. split; [exact F5|]. split; [exact F6|]. split.
     - intros k. apply sel_pats_inj; [apply W1|apply W1'|]. destruct k; congruence.
     - apply sel_pats_inj; [exact W2|exact W2'|congruence].
@@ -1092,7 +1106,7 @@ Section C11.
             /\ reg_text_shows (rc_title_reg a) (rc_scale a) (with_ts_spec (ts_text a) all) body0).
   Proof.
     intros Hd Hnil Hr Hr0. pose proof Hd as (Hi & Hl & (Z1 & Z2) & Hsc).
-    pose proof Hi as (I1 & I2 & I3 & I4 & I5 & I6 & I7).
+    pose proof Hi as (I1 & I2 & I3 & I4 & I5 & I6 & I7 & I8).
     pose proof Hl as (L1 & L2 & L3 & L4 & L5 & L6 & L7 & L8 & L9 & L10).
     destruct (console_inv H _ _ _ _ Hr) as (st & Hp & _).
     assert (Hpb : run_prepare H b j p = Ok st) by (rewrite <- (prepare_same_inputs H a b j p Hi); exact Hp).
@@ -1122,63 +1136,7 @@ Section C11.
 End C11.
 
 (* ================================================================== 11. C13: the balance-group report *)
-(* a period key is made of digits, '-' and 'W': it is a line *)
-Definition key_char (c : N) : Prop := c <> 10%N.
-
-Lemma digit_key_char n : key_char (digit (n mod 10)).
-Proof.
-  unfold key_char, digit. pose proof (Z.mod_pos_bound n 10 ltac:(lia)) as Hb. intros E.
-  apply (f_equal Z.of_N) in E. rewrite Z2N.id in E; [|lia]. change (Z.of_N 10%N) with 10 in E. lia.
-Qed.
-
-Lemma digits_rev_chars f : forall n, Forall key_char (digits_rev f n).
-Proof.
-  induction f as [|f IH]; intros n; cbn [digits_rev]; [constructor|]. constructor; [apply digit_key_char|].
-  destruct (n / 10 =? 0); [constructor|apply IH].
-Qed.
-
-Lemma Forall_rev' {A} (P : A -> Prop) l : Forall P l -> Forall P (rev l).
-Proof. intros Hf. apply Forall_forall. intros x Hx. rewrite <- in_rev in Hx. rewrite Forall_forall in Hf. apply Hf, Hx. Qed.
-
-Lemma show_Z_chars n : Forall key_char (show_Z n).
-Proof.
-  unfold show_Z. destruct (n <? 0); [constructor; [discriminate|]|]; apply Forall_rev', digits_rev_chars.
-Qed.
-
-Lemma pad0_chars w s : Forall key_char s -> Forall key_char (pad0 w s).
-Proof.
-  intros Hs. unfold pad0. apply Forall_app. split; [|exact Hs]. apply Forall_forall. intros x Hx. apply repeat_spec in Hx. subst x. discriminate.
-Qed.
-
-Lemma period_key_chars gb z : Forall key_char (period_key gb z).
-Proof.
-  assert (HY : forall y, Forall key_char (fmt_Y y)) by (intros y; apply pad0_chars, show_Z_chars).
-  assert (H2 : forall y, Forall key_char (fmt_02 y)) by (intros y; apply pad0_chars, show_Z_chars).
-  assert (Hd : key_char dash) by discriminate. assert (HW : key_char chW) by discriminate.
-  unfold period_key. destruct gb.
-  - destruct (civil_of_days z) as [[y m] d]. apply HY.
-  - destruct (civil_of_days z) as [[y m] d]. apply Forall_app. split; [apply HY|]. constructor; [exact Hd|apply H2].
-  - destruct (civil_of_days z) as [[y m] d]. apply Forall_app. split; [apply HY|]. constructor; [exact Hd|].
-    apply Forall_app. split; [apply H2|]. constructor; [exact Hd|apply H2].
-  - destruct (iso_of_days z) as [[y w] wd]. apply Forall_app. split; [apply show_Z_chars|]. constructor; [exact Hd|]. constructor; [exact HW|apply H2].
-  - destruct (iso_of_days z) as [[y w] wd]. apply Forall_app. split; [apply show_Z_chars|]. constructor; [exact Hd|]. constructor; [exact HW|].
-    apply Forall_app. split; [apply H2|]. constructor; [exact Hd|apply show_Z_chars].
-Qed.
-
-Lemma txn_key_no_nl gb tz t : no_nl (txn_key gb tz t).
-Proof.
-  unfold no_nl, txn_key, instant_key. intros Hin. pose proof (period_key_chars gb (local_days (tz (h_inst (t_hdr t))) (h_inst (t_hdr t)))) as Hf.
-  rewrite Forall_forall in Hf. apply (Hf _ Hin). reflexivity.
-Qed.
-
-Lemma balgrp_text_blocks title sc gs :
-  balgrp_txt_report title sc (map text_group gs)
-  = title_lines title ++ concat (map (fun g => bal_txt_report (g_title g) sc (b_rows (g_rep g)) (b_deltas (g_rep g))) gs).
-Proof. unfold balgrp_txt_report. rewrite flat_map_concat_map, map_map. reflexivity. Qed.
-
-Lemma Forall_sub {A} (P : A -> Prop) l l' : (forall x, In x l' -> In x l) -> Forall P l -> Forall P l'.
-Proof. intros Hs Hf. apply Forall_forall. intros x Hx. rewrite Forall_forall in Hf. apply Hf, Hs, Hx. Qed.
-
+(* period keys are lines, the text of the groups block by block: TkProofs.T05_grp_proofs *)
 Section C13.
   Variable H : list N -> list N.
 
@@ -1249,6 +1207,19 @@ Section C13.
                   (conj Hrc (Forall_sub _ _ _ Hsub' Hbn))) as [Hw Hnm].
       apply (bal_report_text_shows (fun _ => true) ord_sorted); try assumption; [apply ord_sorted_perm|].
       rewrite <- Ht. apply txn_key_no_nl.
+  Qed.
+
+  (* T08_balgrp_figures: T06_balgrp_figures in the vocabulary of this file *)
+  Lemma balgrp_figures cfg j p out : run_console H cfg j p = Ok out -> In MetaText.RBalGroup (rc_targets cfg) ->
+    exists st, run_prepare H cfg j p = Ok st
+      /\ (run_hyp cfg st = true ->
+          exists head body, framed (head ++ body) out
+            /\ balgrp_text_spec (rc_title_grp cfg) (rc_scale cfg) (rc_group_by cfg) (rtz cfg) (rs_lk st) (rc_commodity cfg)
+                                (rs_file st) (sel_of cfg MetaText.RBalGroup) (rs_txns st) body).
+  Proof.
+    intros Hr Hin. destruct (console_balgrp_figures H _ _ _ _ Hr Hin) as (st & Hp & Hf).
+    exists st. split; [exact Hp|]. intros Hh. destruct (Hf Hh) as (pre & head & body & post & -> & Hs).
+    exists head, body. split; [exists pre, post; reflexivity|exact Hs].
   Qed.
 End C13.
 
